@@ -1106,6 +1106,22 @@ OUTPUT_BUILTINS = [
 ]
 
 
+def predicted_at_root(expr):
+    """what the open finding output-not-relative:build_step predicts: the FIRST output name of a build_step is resolved
+    against the build ROOT (every output of the step) instead of the submodule's build directory - `$(builddir)/<normalised name>`, or the
+    containment error when the name climbs out of the root with ../"""
+    import posixpath
+    m = re.match(r"build_step\((\[[^\]]*\]|'[^']*')", expr)
+    if not m:
+        return None
+    names = re.findall(r"'([^']*)'", m.group(1))
+    k = re.search(r"\)\[(\d+)\]$", expr)
+    norm = posixpath.normpath(names[int(k.group(1)) if k else 0])
+    if norm == '..' or norm.startswith('../'):
+        return "exception ValueError: too many '..': path cannot escape root"
+    return '`$(builddir)/%s`' % norm
+
+
 def stage_output_builtins(rep, depth=2):
     """direct oracle: every builtin that creates a built file, called inside a (nested) submodule, must place it
     under the matching build subdirectory"""
@@ -1157,7 +1173,7 @@ def stage_output_builtins(rep, depth=2):
                 rep.fail('%s inside submodule %r creates %s, not a path under %s...' % (expr, '/'.join(chain), got, want),
                          {'builtin': name, 'expr': expr, 'submodule': '/'.join(chain), 'output': got, 'expected_prefix': want},
                          # the finding (build_step only): the output is placed directly in the build directory under its name
-                         classes=('output-not-relative:' + name.split('-')[0],) if re.match(r'^`\$\(builddir\)/[^/]+`$', got) else ())
+                         classes=('output-not-relative:' + name.split('-')[0],) if got == predicted_at_root(expr) else ())
     finally:
         shutil.rmtree(d, ignore_errors=True)
     rep.stage('oracle:output-builtins', builtins=len(cases), failures=bad)
